@@ -389,5 +389,6 @@ ASSUMPTIONS = ['default features (no parallel): normalize_batch uses serial_batc
                'Field::square/double/sum_of_products are modelled by x*x, x+x, 0 + a0*b0 + a1*b1 (value-level)']
 HYPOTHESES = ['field_theory of the dictionary operations (F is a field)', 'feqb decides equality', '1 + 1 <> 0 (characteristic <> 2)']
 
+
 # pinned theorems that instantiate this package's abstract-field theorems at the executed ZpOps dictionary
-EXTRA_PROP_FILES = ['Bridge']
+EXTRA_PROP_FILES = ['Bridge', 'Bridge2']
